@@ -48,6 +48,7 @@ class Contract:
         self.observes: dict[str, str] = {}  # spec variable -> external method whose (first) result it denotes
         self.captures: dict[str, ast.expr] = {}
         self.types: dict[str, ast.expr] = {}
+        self.local_types: dict[str, ast.expr] = {}
         self.assumptions: list[str] = []
         self.opts: dict = {}
         self.fn = fn
@@ -108,6 +109,9 @@ class Contract:
             elif name == "types":
                 for k in call.keywords:
                     self.types[k.arg] = k.value
+            elif name == "local_types":
+                for k in call.keywords:
+                    self.local_types[k.arg] = k.value
             elif name == "assumes":
                 self.assumptions.append(call.args[0].value)
             elif name == "option":
@@ -121,7 +125,7 @@ class Contract:
 
 
 CLAUSE_NAMES = {"logs", "logs_only", "logs_result", "observes", "requires", "ensures", "raises", "may_raise", "ensures_raise", "modifies", "invariant", "loop_modifies",
-                "decreases", "captures", "types", "assumes", "option"}
+                "decreases", "captures", "types", "local_types", "assumes", "option"}
 
 
 class Harness:
